@@ -498,6 +498,17 @@ func (C07) AfterCall(w *World, c *Call) {
 		}
 	}
 	reconciled := len(switchy) == len(segs)
+	for _, tc := range c.Tests {
+		if len(tc.Args) == 0 || tc.Args[0] == nil {
+			// a nil operand (e.g. @input without an input) has no identity: its calls cannot be told
+			// apart from the next routing's, so the sprint's test calls are not attributed at all
+			if reconciled {
+				w.probe("c07_sprint_nil_operand_unjudged")
+			}
+			reconciled = false
+			break
+		}
+	}
 	if !reconciled {
 		w.probe("c07_sprint_not_reconciled")
 	}
@@ -756,6 +767,10 @@ func (w *World) checkResult(c *Call, rt *routing, router, cat gen.J, match strin
 	}
 	val, _ := ev["value"].(string)
 	res := finalResultFor(c, rt, router)
+	if limit := w.Sc.Opt.MaxResultChars; limit > 0 && (len([]rune(val)) >= limit-3 || (res != nil && len([]rune(res.Input)) >= limit-3) || len([]rune(match)) >= limit-3) {
+		w.probe("c07_result_at_char_limit_unjudged")
+		return true // values at the configured limit are truncated (C05's subject), input is not
+	}
 	if kind == "switch" {
 		if isMatch && val != match {
 			w.Violate("C07", "result", "C07.result-value/match", fmt.Sprintf("router on node %s: the winning test matched %q but the result value is %q", nodeU, match, val))
@@ -812,27 +827,7 @@ func (w *World) checkSilentSave(c *Call, rt *routing, router, cat gen.J, nodeU, 
 		return true
 	}
 	key := utils.Snakify(name)
-	// later steps of this run (all in this sprint) must not be able to save under the key
-	path := rt.run.Path()
-	after := false
-	for i, st := range path {
-		if st == rt.step {
-			after = true
-			continue
-		}
-		if !after {
-			continue
-		}
-		nd := rt.def.Nodes[string(st.NodeUUID())]
-		if nd == nil {
-			return true
-		}
-		routed := i < len(path)-1 || st.ExitUUID() != ""
-		if nodeSavesKey(nd, key, routed) {
-			return true
-		}
-	}
-	if !after {
+	if laterSaverPossible(rt, key) {
 		return true
 	}
 	res := rt.run.Results().Get(key)
@@ -853,6 +848,32 @@ func (w *World) checkSilentSave(c *Call, rt *routing, router, cat gen.J, nodeU, 
 		return true
 	}
 	return false
+}
+
+// laterSaverPossible says whether a step of this run after rt's step (all of them in this sprint)
+// sits on a node whose actions - or, where the step was routed, router - can save a result under
+// key, with or without an event.
+func laterSaverPossible(rt *routing, key string) bool {
+	path := rt.run.Path()
+	after := false
+	for i, st := range path {
+		if st == rt.step {
+			after = true
+			continue
+		}
+		if !after {
+			continue
+		}
+		nd := rt.def.Nodes[string(st.NodeUUID())]
+		if nd == nil {
+			return true
+		}
+		routed := i < len(path)-1 || st.ExitUUID() != ""
+		if nodeSavesKey(nd, key, routed) {
+			return true
+		}
+	}
+	return !after
 }
 
 // nodeSavesKey says whether a node's actions (and, when routed, its router) can save a result under key.
@@ -895,6 +916,10 @@ func finalResultFor(c *Call, rt *routing, router gen.J) *flows.Result {
 				return nil
 			}
 		}
+	}
+	if laterSaverPossible(rt, utils.Snakify(name)) {
+		// a later save that changes neither value nor category logs no event but replaces the result
+		return nil
 	}
 	for _, res := range rt.run.Results() {
 		if res.Name == name && string(res.NodeUUID) == fmt.Sprint(rt.node["uuid"]) && res.Value == fmt.Sprint(ev["value"]) && res.Category == fmt.Sprint(ev["category"]) {
